@@ -133,7 +133,7 @@ type (
 	}
 	// ExprStmt is an expression statement.
 	ExprStmt struct{ X Expr }
-	// Block is { ... }.
+	// Block is a nested block scope, printed as `if true { ... }`.
 	Block struct{ Body []Stmt }
 	// If is if [init;] cond {then} [else {else}]; ElseIf chains.
 	If struct {
@@ -329,6 +329,9 @@ func (p *Printer) stmt(s Stmt) {
 	case ExprStmt:
 		p.expr(s.X)
 	case Block:
+		// uGO has no free-standing block statement ('{' starts a map literal); a
+		// block scope is written as an always-true if statement
+		w("if true ")
 		p.block(s.Body)
 	case If:
 		w("if ")
